@@ -244,6 +244,10 @@ class SimplePathStrategy(object):
     def supports(cls, path):
         if path[0][0] is ATTRIBUTE:
             return False
+        for step in path[:-1]:
+            if step[0] is ATTRIBUTE:
+                # __init__ stops reading at an attribute step
+                return False
         allowed_tests = (LocalNameTest, CommentNodeTest, TextNodeTest)
         for _, nodetest, predicates in path:
             if predicates:
